@@ -1041,7 +1041,12 @@ class IndexHierarchy(IndexBase):
         if self._recache:
             self._update_array_cache()
 
-        index_constructors = tuple(self._levels.index_types())
+        # index constructors in the order of the new depths
+        index_types = tuple(self._levels.index_types())
+        if set(depth_map) == set(range(len(index_types))): # else, let the called function raise
+            index_constructors = tuple(index_types[d] for d in depth_map)
+        else:
+            index_constructors = index_types
 
         index, _ = rehierarch_from_type_blocks(
                 labels=self._blocks,
